@@ -158,7 +158,7 @@ class EpochRules:
         for p in ps:
             ems = [e for e in p.events if e['kind'] == 'call' and e.get('obj') == lst and e.get('name') in ('emplace_back', 'push_back')]
             other = [e for e in p.events if e['kind'] == 'call' and e.get('obj') == lst and not e.get('const_method') and
-                     e.get('name') not in ('emplace_back', 'push_back', 'reserve', 'begin', 'end', 'erase')]
+                     e.get('name') not in ('emplace_back', 'push_back', 'reserve', 'begin', 'end', 'rbegin', 'rend', 'cbegin', 'cend', 'crbegin', 'crend', 'erase', 'data', 'size')]
             for e in other:
                 sink.bad('C04.SCAN', 'CollectProtectedEpochs %s on the list' % e['name'], self.loc(f, e['line']), 'unexpected mutation of the protected-epoch list')
             vals = [e['args'][0] if e['args'] else None for e in ems]
@@ -226,7 +226,8 @@ class EpochRules:
                 i2 = names.index('std::unique', i1)
                 i3 = names.index('erase', i2)
                 srt = [e for e in p.events if e['kind'] == 'call' and e.get('name') == 'std::sort'][0]
-                desc = any('greater' in repr(a) for a in srt['args'])
+                rb = [e for e in p.events if e['kind'] == 'call' and e.get('name') in ('rbegin', 'rend', 'crbegin', 'crend') and e['seq'] < srt['seq']]
+                desc = any('greater' in repr(a) for a in srt['args']) or len(rb) >= 2
                 last_app = max([e['seq'] for e in ems] or [0])
                 good = desc and srt['seq'] > last_app
             except ValueError:
